@@ -108,10 +108,96 @@ theorem C04_observer_publication_partial (ops : List Op) (outs : List Out) (clos
     intro l hl
     obtain ⟨x, hx, _, hr, hk⟩ := (hi.roomL_iff b r l).mp hl
     exact ⟨x, hx, hk, by simp [hr]⟩
-  obtain ⟨p1, p2, p3, p4⟩ := pubRoom_event ⟨h, outs, closes⟩ b r m hm (hi.roomL_nodup b r) hl
+  obtain ⟨p1, p2, p3, p4, -⟩ := pubRoom_event ⟨h, outs, closes⟩ b r m hm (hi.roomL_nodup b r) hl
   refine ⟨?_, ?_, p3, p4⟩
   · intro l h1 h2; exact p1 l ((hL l).mpr ⟨h1, h2⟩)
   · intro l hn; exact p2 l (fun hl' => hn ((hL l).mp hl'))
+
+theorem rsDelete_frame (h : Hub) (s : Nat) :
+    (rsDelete h s).sess = h.sess ∧ (rsDelete h s).rooms = h.rooms ∧ (rsDelete h s).roomL = h.roomL := by
+  unfold rsDelete; split <;> simp
+
+/-- **Observer side, a member leaves.**  In every reachable state in which the other members of a room hold the
+room's member set, they hold the new member set after an ordinary session `s` has left the room (`leaveRoom`:
+listener list, room-session id, the session's own record, `Room.RemoveSession` with its `leave` event). -/
+theorem C04_leave_keeps_observers_right (ops : List Op) (outs : List Out) (closes : List Nat) (s : Nat) (x : Sess)
+    (r : String) (rm : Room)
+    (hx : (run {} ops).1.sess s = some x) (hk : x.kind = .client) (hr : x.room = some r)
+    (hrm : (run {} ops).1.rooms x.backend r = some rm)
+    (hv : ∀ l ∈ (run {} ops).1.roomL x.backend r, l ≠ s → ∀ t, t ∈ seenOf (run {} ops).1 l ↔ t ∈ rm.members) :
+    let a' := (leaveRoom ⟨(run {} ops).1, outs, closes⟩ s).1
+    ∀ l ∈ (run {} ops).1.roomL x.backend r, l ≠ s → ∀ t, t ∈ seenOf a'.h l ↔ t ∈ removeL rm.members s := by
+  have hi := reachable_inv ops
+  generalize (run {} ops).1 = h at *
+  intro a' l hl hne t
+  obtain ⟨rm', hrm', hs⟩ := hi.room_mem' s x r hx hr
+  rw [hrm] at hrm'; cases hrm'
+  -- the state `Room.RemoveSession` starts from
+  let h3 := setSess (rsDelete (setRoomL h x.backend r (removeL (h.roomL x.backend r) s)) s) s
+    (some { x with kind := .client, room := none, roomSess := "", seenJoin := [] })
+  have e : a' = roomRemoveSession ⟨h3, outs, closes⟩ x.backend r s .client := by
+    simp only [a', leaveRoom, hx, hr, hk, reduceCtorEq, ↓reduceIte]
+    rfl
+  obtain ⟨f1, f2, f3⟩ := rsDelete_frame (setRoomL h x.backend r (removeL (h.roomL x.backend r) s)) s
+  have hsess : ∀ k, k ≠ s → h3.sess k = h.sess k := by
+    intro k hk'
+    show (if k = s then _ else (rsDelete _ s).sess k) = _
+    rw [if_neg hk', f1]; rfl
+  have hrooms : h3.rooms = h.rooms := by
+    show (rsDelete _ s).rooms = _
+    rw [f2]; rfl
+  have hroomL : h3.roomL x.backend r = removeL (h.roomL x.backend r) s := by
+    show (rsDelete _ s).roomL x.backend r = _
+    rw [f3]; simp [setRoomL]
+  have hmem : ∀ k, k ∈ h3.roomL x.backend r ↔ k ∈ h.roomL x.backend r ∧ k ≠ s := by
+    intro k; rw [hroomL, mem_removeL]
+  rw [e]
+  apply roomRemoveSession_views ⟨h3, outs, closes⟩ x.backend r s rm (by rw [hrooms]; exact hrm) hs
+  · rw [hroomL]; exact (hi.roomL_nodup x.backend r).filter _
+  · intro k hk'
+    obtain ⟨h1, h2⟩ := (hmem k).mp hk'
+    obtain ⟨y, hy, _, hyr, hyk⟩ := (hi.roomL_iff x.backend r k).mp h1
+    exact ⟨y, (hsess k h2).trans hy, hyk, by simp [hyr]⟩
+  · intro k hk' t'
+    obtain ⟨h1, h2⟩ := (hmem k).mp hk'
+    have := hv k h1 h2 t'
+    simp only [seenOf, hsess k h2] at this ⊢
+    exact this
+  · exact (hmem l).mpr ⟨hl, hne⟩
+
+/-- **Observer side, a session joins.**  In every reachable state in which the members of a room hold the room's
+member set, they and the joiner hold the new member set after an ordinary session that is in no room has joined it
+(`Hub.processJoinRoom` after a positive backend answer: listener list, room-session id, the `room` reply, `Room.AddSession`
+with its `join` event and the member list for the joiner). -/
+theorem C04_join_keeps_observers_right (ops : List Op) (outs : List Out) (closes : List Nat) (s : Nat) (x : Sess)
+    (r rsid : String) (perms : Option (List String)) (su : String)
+    (hx : (run {} ops).1.sess s = some x) (hk : x.kind = .client) (hr : x.room = none)
+    (hv : ∀ l ∈ (run {} ops).1.roomL x.backend r, ∀ t, t ∈ seenOf (run {} ops).1 l ↔ t ∈ membersOf (run {} ops).1 x.backend r) :
+    let a' := doJoin ⟨(run {} ops).1, outs, closes⟩ s r rsid perms su
+    ∀ l, (l ∈ (run {} ops).1.roomL x.backend r ∨ l = s) → ∀ t, t ∈ seenOf a'.h l ↔
+      t ∈ membersOf (run {} ops).1 x.backend r ∨ t = s := by
+  have hi := reachable_inv ops
+  generalize (run {} ops).1 = h at *
+  have hmo : membersOf h x.backend r = ((h.rooms x.backend r).getD {}).members := by
+    unfold membersOf; cases h.rooms x.backend r <;> rfl
+  rw [hmo] at hv ⊢
+  intro a'
+  apply doJoin_views ⟨h, outs, closes⟩ s x r rsid perms su hx hk hr
+  · -- `s` is in no room, so it is no member of this one
+    intro hm
+    cases hrm : h.rooms x.backend r with
+    | none => simp [hrm] at hm
+    | some rm =>
+      simp only [hrm, Option.getD_some] at hm
+      obtain ⟨y, hy, _, hyr⟩ := hi.mem_room x.backend r rm s hrm hm
+      rw [hx] at hy; cases hy
+      rw [hr] at hyr; cases hyr
+  · exact hi.roomL_nodup x.backend r
+  · intro l hl
+    obtain ⟨y, hy, _, hyr, hyk⟩ := (hi.roomL_iff x.backend r l).mp hl
+    exact ⟨y, hy, hyk, by simp [hyr]⟩
+  · exact (hi.sessL_iff s).mpr (by simp [hx])
+  · intro l hl _ t; exact hv l hl t
 
 /-- Non-vacuity / witness: in the demo history below every observer's view is its room's member set, and the
 publication theorem's premises are met by two sessions. -/
@@ -119,6 +205,20 @@ example : viewBad (run {} [.connect 1, .connect 2, .hello 1 0 .client "alice" fa
     .hello 2 0 .client "bob" false false, .join 1 "roomA" "nc1" (.ok none ""), .join 2 "roomA" "nc2" (.ok none "")]).1 = []
     ∧ membersOf (run {} [.connect 1, .connect 2, .hello 1 0 .client "alice" false false,
     .hello 2 0 .client "bob" false false, .join 1 "roomA" "nc1" (.ok none ""), .join 2 "roomA" "nc2" (.ok none "")]).1 0 "roomA" = [1, 2] := by
+  decide +kernel
+
+/-- Non-vacuity of the premises of `C04_join_keeps_observers_right` / `C04_leave_keeps_observers_right`: a reachable
+state with two members that both hold the member set, a third ordinary session in no room, and the outcome of
+its join and of a member's leave as the theorems say. -/
+private def demo3 : List Op :=
+  [.connect 1, .connect 2, .connect 3, .hello 1 0 .client "alice" false false, .hello 2 0 .client "bob" false false,
+   .hello 3 0 .client "carol" false false, .join 1 "roomA" "nc1" (.ok none ""), .join 2 "roomA" "nc2" (.ok none "")]
+
+example : (run {} demo3).1.roomL 0 "roomA" = [1, 2] ∧ seenOf (run {} demo3).1 1 = [1, 2] ∧ seenOf (run {} demo3).1 2 = [2, 1] ∧
+    ((run {} demo3).1.sess 3).map (fun x => (x.kind, x.room)) = some (.client, none) ∧
+    seenOf (doJoin ⟨(run {} demo3).1, [], []⟩ 3 "roomA" "nc3" none "").h 3 = [3, 1, 2] ∧
+    seenOf (doJoin ⟨(run {} demo3).1, [], []⟩ 3 "roomA" "nc3" none "").h 1 = [1, 2, 3] ∧
+    seenOf (leaveRoom ⟨(run {} demo3).1, [], []⟩ 1).1.h 2 = [2] := by
   decide +kernel
 
 /-! Non-vacuity: a concrete history in which the statements are about something. -/
